@@ -940,7 +940,7 @@ Definition gstep (h : hdr) (s : sys) (g : ghost) (x : op) : ghost :=
                         (set_slot (g_got g) o (filter (fun e => fst e <=? head_name_of f) (fst (g_saved g))))
                         (set_slot (g_sync g) o (snd (g_saved g))) (g_saved g)
             end
-          else mkghost (g_cr g) (g_hist g) (g_mono g) (g_got g) (set_slot (g_sync g) o false) (g_saved g)
+          else mkghost (g_cr g) (g_hist g) (g_mono g) (set_slot (g_got g) o []) (set_slot (g_sync g) o false) (g_saved g)
       | None => mkghost (g_cr g) (g_hist g) (g_mono g) (g_got g) (set_slot (g_sync g) o false) (g_saved g)
       end
   | _ => g
@@ -1727,7 +1727,7 @@ Proof.
     assert (Hnmcr : In (nm, length (store (sfs s))) cr') by (apply in_or_app; right; left; reflexivity).
     assert (Htopnm : top (logfiles r) < nm).
     { destruct (new_name_top r (stamp_of ts now) Hfx' ltac:(unfold stamp_of; destruct ts; auto)) as (H & _). exact H. }
-    split; [exact Hcr'|]. split; [rewrite Hhist'; fold data; rewrite Hhist; reflexivity|].
+    split; [exact Hcr'|]. split; [rewrite Hhist'; fold data; rewrite Hhist; destruct data; [rewrite app_nil_r|]; reflexivity|].
     split; [intros w i Hw Hi; cbn in Hw; inversion Hw; subst w; apply Hlink'; exact Hi|].
     split; [exact Hfr'|]. split.
     + intros o' r0 Hg0. destruct o'.
@@ -1741,7 +1741,9 @@ Proof.
         rewrite C'. repeat (split; [assumption|]). intro Hsy. apply D'. apply Hsync. exact Hsy.
     + eapply saved_env; eauto. apply hpos_frame. exact Fr.
   - (* the open file grows *)
-    specialize (Hww (fun H => ltac:(discriminate H))). specialize (Hws (or_introl ltac:(destruct Hkind as (_ & _ & _ & _ & _ & _ & _ & W5); apply (W5 i0 Ewf)))).
+    specialize (Hww (fun H => ltac:(discriminate H))).
+    assert (Hne0 : logfiles r <> []) by (destruct Hkind as (_ & _ & _ & _ & _ & _ & _ & W5); apply (W5 i0 Ewf)).
+    specialize (Hws (or_introl Hne0)).
     destruct (write r (sfs s) ts now p) as [[r' f'] e].
     destruct Hww as (He & Hcr' & Hhist' & Hlink' & Hfr' & _ & Htopr').
     destruct Hwo as (F' & K' & C' & _ & _ & _ & Fr).
@@ -1749,7 +1751,7 @@ Proof.
     destruct Hex as [[-> _]|[_ Hx]]; [|discriminate].
     cbn [fst g_cr g_hist g_got g_sync g_saved]. rewrite sfs_put.
     change (grow (put s false (Some r') f')) with (wgrow r'). rewrite Hgs in *.
-    split; [exact Hcr'|]. split; [rewrite Hhist'; fold data; rewrite Hhist; reflexivity|].
+    split; [exact Hcr'|]. split; [rewrite Hhist'; fold data; rewrite Hhist; destruct data; [rewrite app_nil_r|]; reflexivity|].
     split; [intros w i Hw Hi; cbn in Hw; inversion Hw; subst w; apply Hlink'; exact Hi|].
     split; [exact Hfr'|]. split.
     + intros o' r0 Hg0. destruct o'.
@@ -1760,4 +1762,321 @@ Proof.
         destruct (own_write _ _ _ _ _ _ r r' [] nd (g_got g false) He Hcr Hcr' F' K' Hr Hnames Hndlt Hidx Hrf (or_introl eq_refl) Hdeadp) as [A' D'].
         rewrite C'. repeat (split; [assumption|]). intro Hsy. apply D'. apply Hsync. exact Hsy.
     + eapply saved_env; eauto. apply hpos_frame. exact Fr.
+Qed.
+
+(* ---- open / restart --------------------------------------------------------------------------- *)
+Lemma construct_shape c f now r f' e : construct c f now = (Some r, f', e) ->
+  (forall n, In n (names (logfiles r)) -> In n (names (log_listing f))) /\ ridx r = nlog r /\ rf r = RNone /\
+  (c_rdonly c = true -> logfiles r = log_listing f /\ wf r = WClosed /\ f' = f).
+Proof.
+  unfold construct. destruct (c_head c && negb (c_rdonly c)); [discriminate|].
+  set (c' := mkcfg _ _ _ _ _ _ _ _).
+  destruct (c_rdonly c) eqn:Erd.
+  - set (r0 := scan (mkrl c' [] 0 WClosed RNone 0) f).
+    destruct (last (map Some (logfiles r0)) None) as [[n s]|]; [destruct (now <=? n); [discriminate|]|];
+      intro H; inversion H; subst; cbn; (split; [auto|]); (split; [reflexivity|]); (split; [reflexivity|]); intros _; auto.
+  - set (r0 := scan (mkrl c' [] 0 WNone RNone 0) f). rewrite prune_eq.
+    destruct (prune_r_fields r0) as (Pl & _ & _ & _).
+    assert (Hrf : rf (prune_r r0) = RNone).
+    { unfold prune_r. destruct (ndel r0); [reflexivity|]. destruct (_ <=? _)%nat; reflexivity. }
+    assert (Hsub : forall n, In n (names (logfiles (prune_r r0))) -> In n (names (log_listing f))).
+    { intros n Hn. rewrite Pl, names_skipn in Hn. apply In_skipn in Hn. exact Hn. }
+    destruct (last (map Some (logfiles (prune_r r0))) None) as [[n s]|]; [destruct (now <=? n); [discriminate|]|];
+      intro H; inversion H; subst; cbn [logfiles ridx rf set_ridx nlog];
+      (split; [exact Hsub|]); (split; [reflexivity|]); (split; [exact Hrf|]); discriminate.
+Qed.
+
+Lemma restart_shape c f now r' f' e : restart c f now = (Some r', f', e) ->
+  exists r0 e0, construct c f now = (Some r0, f', e0) /\ cf r' = cf r0 /\ wf r' = wf r0 /\ logfiles r' = logfiles r0 /\
+    (if c_head c then
+       match lookup (dir f') head_name with
+       | None => r' = fst (seek r0 f' PStart)
+       | Some i => exists p, dec_head (content f' i) = Some p /\ r' = fst (seek r0 f' p)
+       end
+     else r' = r0).
+Proof.
+  unfold restart. destruct (construct c f now) as [[[r0|] f1] e0] eqn:Ec; [|discriminate].
+  intro H. exists r0, e0.
+  assert (Hsk : forall p, cf (fst (seek r0 f1 p)) = cf r0 /\ wf (fst (seek r0 f1 p)) = wf r0 /\ logfiles (fst (seek r0 f1 p)) = logfiles r0)
+    by (intro p; destruct (seek_fields r0 f1 p) as (A & B & C & _); auto).
+  destruct (c_head c).
+  - destruct (lookup (dir f1) head_name) as [i|] eqn:El.
+    + destruct (dec_head (content f1 i)) as [p|] eqn:Ed; [|discriminate].
+      destruct (seek r0 f1 p) as [r1 e1] eqn:Es. destruct e1; inversion H; subst.
+      destruct (Hsk p) as (A & B & C). rewrite Es in A, B, C. cbn [fst] in *. split; [reflexivity|]. split; [exact A|]. split; [exact B|]. split; [exact C|].
+      rewrite El. exists p. rewrite Es. auto.
+    + destruct (seek r0 f1 PStart) as [r1 e1] eqn:Es. inversion H; subst.
+      destruct (Hsk PStart) as (A & B & C). rewrite Es in A, B, C. cbn [fst] in *. split; [reflexivity|]. split; [exact A|]. split; [exact B|]. split; [exact C|].
+      rewrite El, Es. reflexivity.
+  - inversion H; subst. auto.
+Qed.
+
+(* a fresh object (nothing open for writing) is installed in slot [o] *)
+Lemma ginv_install h s g o r' got' sy' :
+  GInv h s g ->
+  (g_mono g = true -> robj_ok (sfs s) (g_cr g) r' /\ c_fixr (cf r') = fixr_of h /\ c_mode (cf r') = mode_ofh h /\
+     (sy' = true -> synced (sfs s) (g_cr g) (grow (put s o (Some r') (sfs s))) r' got')) ->
+  (forall i, wf r' <> WOpen i) ->
+  GInv h (put s o (Some r') (sfs s))
+       (mkghost (g_cr g) (g_hist g) (g_mono g) (set_slot (g_got g) o got') (set_slot (g_sync g) o sy') (g_saved g)).
+Proof.
+  intros HG Hnew Hnw Hm. cbn in Hm. destruct (HG Hm) as (Hcr & Hhist & Hlink & Hfr & Hobj & Hs).
+  destruct (Hnew Hm) as (Hr' & Hfx' & Hmd' & Hsy').
+  cbn [g_cr g_hist g_got g_sync g_saved]. rewrite sfs_put.
+  assert (Hgr : forall i, grow (put s o (Some r') (sfs s)) = Some i -> grow s = Some i).
+  { intros i Hi. destruct o; cbn in Hi; [exact Hi|]. unfold grow in Hi. cbn in Hi.
+    destruct (wf r') eqn:E; try discriminate. exfalso. eapply Hnw; eauto. }
+  assert (He : env_step (sfs s) (g_cr g) (grow s) (sfs s) (g_cr g) (grow (put s o (Some r') (sfs s)))).
+  { split; [auto|]. split; [exists []; split; [rewrite app_nil_r; reflexivity|intros n i []]|]. split; [auto|].
+    intros n i _ H. apply Hgr. exact H. }
+  split; [exact Hcr|]. split; [exact Hhist|]. split.
+  { intros w i Hw Hi. destruct o; cbn in Hw; [apply (Hlink w i); assumption|]. inversion Hw; subst w. exfalso. eapply Hnw; eauto. }
+  split; [exact Hfr|]. split.
+  - intros o' r0 Hg0. destruct (Bool.eqb_spec o' o) as [->|Hne].
+    + rewrite get_put_same in Hg0. inversion Hg0; subst r0. rewrite !set_slot_same. repeat (split; [assumption|]). exact Hsy'.
+    + assert (o' = negb o) by (destruct o, o'; try reflexivity; congruence). subst o'.
+      rewrite get_put_other in Hg0. destruct (Hobj _ r0 Hg0) as (A & B & C & D).
+      destruct (obj_env _ _ _ _ _ _ r0 (g_got g (negb o)) He Hcr A) as [A' D'].
+      repeat (split; [assumption|]). rewrite !set_slot_other. intro Hsy. apply D'. apply D. exact Hsy.
+  - eapply saved_env; eauto.
+Qed.
+
+Lemma robj_ok_listing f cr r : fs_ok f -> cr_ok f cr -> logfiles r = log_listing f -> (ridx r <= nlog r)%nat ->
+  (forall i off, rf r <> ROpen i off) -> robj_ok f cr r.
+Proof.
+  intros Hfs (C0 & Cinj & Cpos & C1 & C2) HL Hle Hrf. unfold robj_ok. rewrite HL.
+  split; [apply listing_asc; apply Hfs|]. split.
+  { intros n Hn. apply (listed_alive f n Hfs) in Hn as (i & Hl & Hn0). apply lookup_In in Hl.
+    apply (in_map fst cr (n, i)). apply C1; [exact Hl|apply is_log_true; exact Hn0]. }
+  split.
+  { intros n i Hin _. destruct (Cpos n i Hin) as [Hn0 _].
+    destruct (lookup (dir f) n) as [j'|] eqn:E; [left; eapply alive_listed; eauto; lia|right; exact E]. }
+  split; [exact Hle|]. intros i off H. exfalso. eapply Hrf; eauto.
+Qed.
+
+Lemma mk_cfg_fields2 h rd ar hd :
+  c_fixr (norm_cfg (mk_cfg h rd ar hd)) = fixr_of h /\ c_mode (norm_cfg (mk_cfg h rd ar hd)) = mode_ofh h.
+Proof. destruct h as [[[m fsz] tsz] [fn fr]]. split; reflexivity. Qed.
+
+Lemma head_name_of_spec f i p : lookup (dir f) head_name = Some i -> dec_head (content f i) = Some p -> head_name_of f = pos_name p.
+Proof. intros H1 H2. unfold head_name_of. rewrite H1, H2. destruct p; reflexivity. Qed.
+
+Lemma ginv_open h s g o now rdonly ar hd : Inv h s -> GInv h s g -> op_ok (OOpen o now rdonly ar hd) ->
+  GInv h (fst (step h s (OOpen o now rdonly ar hd))) (gstep h s g (OOpen o now rdonly ar hd)).
+Proof.
+  intros HI HG Hop. pose proof HI as (Hfs & _ & _ & _ & Hhd). cbn [step gstep].
+  set (c := mk_cfg h rdonly ar hd).
+  destruct (mk_cfg_fields h rdonly ar hd) as (C1 & C2 & C3). fold c in C1, C2, C3.
+  pose proof (restart_ok h (sfs s) c now Hfs Hhd C1) as Hro.
+  pose proof (restart_fs c (sfs s) now) as Hrfs.
+  pose proof (construct_ok (sfs s) c now Hfs) as Hco.
+  pose proof (construct_store c (sfs s) now) as Hcs.
+  destruct (restart c (sfs s) now) as [[x f'] e] eqn:Er. cbn [fst snd] in *.
+  destruct Hro as (F' & Fr & Hsame & _).
+  destruct (construct c (sfs s) now) as [[x0 f0] e0] eqn:Ec. cbn [fst snd] in *. subst f0.
+  destruct Hco as (_ & _ & Hsub & _).
+  (* the directory may have been pruned by the constructor *)
+  assert (H1 : GInv h (mksys f' (oa s) (ob s)) g).
+  { intro Hm. destruct (HG Hm) as (Hcr & _).
+    destruct (env_sub (sfs s) (g_cr g) (grow s) f' (grow s) Hsub Hcs Hfs F' Hcr ltac:(auto)) as (He & Hcr' & Hch).
+    apply (ginv_world h s g f' HG Hm He Hcr' Hch); [apply hpos_frame; exact Fr|exact Hm]. }
+  assert (Hput : forall y, put s o y f' = put (mksys f' (oa s) (ob s)) o y f') by (intro y; destruct s, o; reflexivity).
+  destruct x as [r'|].
+  2:{ cbn [fst]. rewrite Hput. apply (ginv_replace h (mksys f' (oa s) (ob s)) g o None (g_saved g) H1); left; reflexivity. }
+  cbn [fst]. rewrite Hput.
+  destruct (restart_shape c (sfs s) now r' f' e Er) as (r0 & e0' & Ec' & Ecf & Ewf & Elog & Hhead).
+  rewrite Ec in Ec'. inversion Ec'; subst x0 e0'. clear Ec'.
+  destruct (construct_shape c (sfs s) now r0 f' e0 Ec) as (Hnsub & Hidx0 & Hrf0 & Hrd0).
+  pose proof (construct_ok (sfs s) c now Hfs) as Hco. rewrite Ec in Hco.
+  destruct Hco as (_ & _ & _ & _ & (_ & Hcf0 & _ & Hkind0) & _).
+  destruct (mk_cfg_fields2 h rdonly ar hd) as [Hfxr Hmd]. fold c in Hfxr, Hmd.
+  assert (Hnw : forall i, wf r' <> WOpen i).
+  { intros i Hi. rewrite Ewf in Hi. rewrite C2 in Hkind0. destruct rdonly.
+    - destruct (Hrd0 C2) as (_ & Hc & _). congruence.
+    - destruct Hkind0 as [_ Hc]. congruence. }
+  assert (Hr0 : g_mono g = true -> robj_ok f' (g_cr g) r0).
+  { intro Hm. destruct (H1 Hm) as (Hcr' & _). cbn [sfs] in Hcr'. rewrite C2 in Hkind0. destruct rdonly.
+    - destruct (Hrd0 C2) as (HL & _ & ->). apply robj_ok_listing; auto; [lia|intros i off; rewrite Hrf0; discriminate].
+    - destruct Hkind0 as [Hw0 _]. destruct (HG Hm) as (Hcr & _). pose proof Hcr as (C0 & Cinj & Cpos & Cd1 & Cd2).
+      pose proof Hcr' as (_ & _ & Cpos' & _).
+      unfold robj_ok. split; [apply Hw0|]. split.
+      { intros n Hn. apply Hnsub in Hn. apply (listed_alive (sfs s) n Hfs) in Hn as (i & Hl & Hn0). apply lookup_In in Hl.
+        apply (in_map fst (g_cr g) (n, i)). apply Cd1; [exact Hl|apply is_log_true; exact Hn0]. }
+      split.
+      { intros n i Hin _. unfold dead. destruct (lookup (dir f') n) as [j|] eqn:E; [left|right; reflexivity].
+        apply (alive_in_list f' r0 n j Hw0); [apply lookup_In; exact E|destruct (Cpos n i Hin); lia]. }
+      split; [lia|intros i off; rewrite Hrf0; discriminate]. }
+  assert (Hr' : g_mono g = true -> robj_ok f' (g_cr g) r').
+  { intro Hm. destruct (H1 Hm) as (Hcr' & _). cbn [sfs] in Hcr'. specialize (Hr0 Hm).
+    destruct (c_head c); [|subst r'; exact Hr0].
+    destruct (lookup (dir f') head_name) as [i|]; [destruct Hhead as (p & _ & ->)|subst r']; apply seek_robj_ok; assumption. }
+  assert (Hbasic : g_mono g = true -> c_fixr (cf r') = fixr_of h /\ c_mode (cf r') = mode_ofh h).
+  { intros _. rewrite Ecf, Hcf0. split; assumption. }
+  rewrite C3 in Hhead.
+  destruct (hd && rdonly) eqn:Ehr.
+  2:{ (* not a head-following reader *)
+      apply (ginv_install h (mksys f' (oa s) (ob s)) g o r' [] false H1); [|exact Hnw].
+      intro Hm. destruct (Hbasic Hm) as [Hb1 Hb2]. split; [apply Hr'; exact Hm|]. split; [exact Hb1|]. split; [exact Hb2|discriminate]. }
+  apply andb_true_iff in Ehr as [-> ->]. specialize (Hsame C2). subst f'.
+  destruct (Hrd0 C2) as (HL0 & _ & _).
+  destruct (lookup (dir (sfs s)) head_name) as [i|] eqn:El.
+  - (* resume from the head file *)
+    destruct Hhead as (p & Hdec & ->).
+    apply (ginv_install h (mksys (sfs s) (oa s) (ob s)) g o _ _ _ H1); [|exact Hnw].
+    intro Hm. destruct (Hbasic Hm) as [Hb1 Hb2]. split; [apply Hr'; exact Hm|]. split; [exact Hb1|]. split; [exact Hb2|].
+    intro Hsy. destruct (H1 Hm) as (Hcr & _ & _ & _ & _ & Hsv). cbn [sfs] in *.
+    assert (Hb : hpos (sfs s) = Some (content (sfs s) i)) by (unfold hpos; rewrite El; reflexivity).
+    destruct (Hsv Hsy _ p Hb Hdec) as (taken & cur & t & Hpos & Hden & Hgot).
+    set (gr' := grow (put (mksys (sfs s) (oa s) (ob s)) o (Some (fst (seek r0 (sfs s) p))) (sfs s))).
+    assert (Hgr : forall j, gr' = Some j -> grow (mksys (sfs s) (oa s) (ob s)) = Some j).
+    { intros j Hj. unfold gr' in Hj. destruct o; cbn in Hj; [exact Hj|]. unfold grow in Hj. cbn in Hj.
+      destruct (wf (fst (seek r0 (sfs s) p))) eqn:E; try discriminate. exfalso. eapply Hnw; eauto. }
+    assert (He : env_step (sfs s) (g_cr g) (grow (mksys (sfs s) (oa s) (ob s))) (sfs s) (g_cr g) gr').
+    { split; [auto|]. split; [exists []; split; [rewrite app_nil_r; reflexivity|intros n j []]|]. split; [auto|].
+      intros n j _ H. apply Hgr. exact H. }
+    pose proof Hcr as (C0 & _ & Cpos & _).
+    assert (Cp : forall n j, In (n, j) (g_cr g) -> 0 < n) by (intros n j H; apply (Cpos n j H)).
+    assert (Hcur0 : ~ In cur (names (g_cr g)) -> t = O).
+    { intro Hnin. destruct p as [| |n [off|]]; cbn in Hden; try contradiction; [apply Hden|].
+      destruct Hden as (j & Hj & [(-> & _)|(_ & -> & _)]); [|reflexivity]. exfalso. apply Hnin. apply (in_map fst) in Hj. exact Hj. }
+    destruct (env_pos_ok _ _ _ _ _ _ taken cur t He C0 Cp Hpos Hcur0) as [Hpos' Hd'].
+    pose proof (env_pden _ _ _ _ _ _ taken p cur t He C0 Cp Hpos Hden) as Hden'.
+    destruct (seek_pos (sfs s) (g_cr g) gr' taken r0 cur t p Hfs Hcr HL0 Hrf0 (Hr0 Hm) Hpos' Hden')
+      as (_ & cur' & t' & Hat' & Hpos'').
+    exists (restrict taken (pos_name p)), cur', t'. split; [exact Hat'|]. split; [exact Hpos''|].
+    rewrite delivered_filter, Hgot, (head_name_of_spec (sfs s) i p El Hdec). reflexivity.
+  - (* no head file yet: from the start *)
+    subst r'.
+    apply (ginv_install h (mksys (sfs s) (oa s) (ob s)) g o _ [] true H1); [|exact Hnw].
+    intro Hm. destruct (Hbasic Hm) as [Hb1 Hb2]. split; [apply Hr'; exact Hm|]. split; [exact Hb1|]. split; [exact Hb2|].
+    intros _. destruct (H1 Hm) as (Hcr & _). cbn [sfs] in Hcr.
+    destruct (seek_start_pos (sfs s) (g_cr g) (grow (put (mksys (sfs s) (oa s) (ob s)) o (Some (fst (seek r0 (sfs s) PStart))) (sfs s)))
+                             r0 Hcr (Hr0 Hm) ltac:(rewrite Hrf0; discriminate)) as (_ & cur & _ & Hat & Hpos & Hd).
+    exists (fun _ => O), cur, O. split; [exact Hat|]. split; [exact Hpos|symmetry; exact Hd].
+Qed.
+
+(* ====================================================================================== *)
+(* all steps, all histories                                                                 *)
+(* ====================================================================================== *)
+Lemma gstep_inv h s g x : fixn_of h = true -> fixr_of h = true -> Inv h s -> GInv h s g -> op_okg h x ->
+  GInv h (fst (step h s x)) (gstep h s g x).
+Proof.
+  intros Hfn Hfr HI HG Hok. destruct x as [o now rdonly ar hd|n|o|o ts now p|o block|o|o p|o ts|o|o|o|o k part].
+  - apply ginv_open; [exact HI|exact HG|apply Hok].
+  - apply ginv_delete; assumption.
+  - apply ginv_kill; assumption.
+  - apply ginv_write; assumption.
+  - apply ginv_read; assumption.
+  - apply ginv_tell; assumption.
+  - apply ginv_seek; assumption.
+  - apply ginv_seek_block; assumption.
+  - apply ginv_refresh; assumption.
+  - apply ginv_close; assumption.
+  - apply ginv_save; assumption.
+  - apply ginv_crash; assumption.
+Qed.
+
+Definition ops_okg (h : hdr) (ops : list op) : Prop := Forall (op_okg h) ops.
+
+Lemma ops_okg_ok h ops : ops_okg h ops -> ops_ok ops.
+Proof. intro H. induction H as [|x t [Hx _] _ IH]; constructor; assumption. Qed.
+
+Lemma grun_inv h ops : fixn_of h = true -> fixr_of h = true -> ops_okg h ops ->
+  forall s g, Inv h s -> GInv h s g -> Inv h (fst (grun h s g ops)) /\ GInv h (fst (grun h s g ops)) (snd (grun h s g ops)).
+Proof.
+  intros Hfn Hfr Hops. induction Hops as [|x t Hx Ht IH]; intros s g HI HG; [split; assumption|].
+  cbn [grun]. apply IH; [apply step_inv; [exact Hfn|exact HI|apply Hx]|apply gstep_inv; assumption].
+Qed.
+
+Definition greach (h : hdr) (ops : list op) : sys * ghost := grun h sys0 ghost0 ops.
+
+Lemma greach_fst h ops : fst (greach h ops) = reach h ops.
+Proof. apply grun_fst. Qed.
+
+Lemma greach_inv h ops : fixn_of h = true -> fixr_of h = true -> ops_okg h ops ->
+  Inv h (fst (greach h ops)) /\ GInv h (fst (greach h ops)) (snd (greach h ops)).
+Proof. intros. apply grun_inv; auto; [apply Inv0|apply GInv0]. Qed.
+
+(* ---- C13: exactly once, in order ----------------------------------------------------------- *)
+(* what was handed to a followed reader is, file by file in creation (= name = writing) order, a
+   prefix of the file's chunks; the prefix is the whole file for every file the reader has passed
+   that is still on disk, and empty for the files it has not reached *)
+Lemma exactly_once h ops o : fixn_of h = true -> fixr_of h = true -> ops_okg h ops ->
+  let s := fst (greach h ops) in let g := snd (greach h ops) in
+  g_mono g = true ->
+  g_hist g = histf (sfs s) (g_cr g) /\
+  (g_sync g o = true -> forall r, get s o = Some r ->
+   exists taken cur,
+     g_got g o = delivered (sfs s) (g_cr g) taken /\
+     (forall n i, In (n, i) (g_cr g) ->
+        (taken n <= length (chunks (sfs s) i))%nat /\
+        (n < cur -> taken n = length (chunks (sfs s) i) \/ dead (sfs s) n) /\
+        (cur < n -> taken n = O))).
+Proof.
+  intros Hfn Hfr Hops s g Hm. destruct (greach_inv h ops Hfn Hfr Hops) as [HI HG].
+  fold s g in HI, HG. destruct (HG Hm) as (Hcr & Hhist & _ & _ & Hobj & _).
+  split; [exact Hhist|]. intros Hsy r Hg. destruct (Hobj o r Hg) as (_ & _ & _ & Hs).
+  destruct (Hs Hsy) as (taken & cur & t & _ & (P1 & P2 & P3 & P4 & P5) & Hgot).
+  exists taken, cur. split; [exact Hgot|]. intros n i Hin. split; [apply (P5 n i Hin)|].
+  split; [intro Hlt; destruct (P1 n i Hin Hlt) as [Hd|[Ht _]]; [right; exact Hd|left; exact Ht]|apply P3].
+Qed.
+
+Lemma map_snd_tag n (l : list (list Z)) : map snd (tag n l) = l.
+Proof. unfold tag. rewrite map_map. cbn. apply map_id. Qed.
+
+(* the ghost is what read() really returned: a read hands out the decoding of whole chunks *)
+Lemma read_returns h ops o block : fixn_of h = true -> fixr_of h = true -> ops_okg h ops ->
+  let s := fst (greach h ops) in let g := snd (greach h ops) in
+  g_mono g = true -> g_sync g o = true -> forall r, get s o = Some r -> rf r <> RClosed ->
+  exists delta,
+    g_got (gstep h s g (ORead o block)) o = g_got g o ++ delta /\
+    snd (step h s (ORead o block)) =
+      match delta with
+      | [] => ROk
+      | _ => decode (mode_ofh h) (eff_block (mode_ofh h) block) (concat (map snd delta))
+      end.
+Proof.
+  intros Hfn Hfr Hops s g Hm Hsy r Hg Hnc. destruct (greach_inv h ops Hfn Hfr Hops) as [HI HG].
+  fold s g in HI, HG. destruct (HG Hm) as (Hcr & Hhist & Hlink & Hfrm & Hobj & _). pose proof HI as (Hfs & _).
+  destruct (Hobj o r Hg) as (Hr & Hfx & Hmode & Hs). destruct (Hs Hsy) as (taken & cur & t & Hat & Hpos & Hgot).
+  cbn [step gstep]. rewrite Hg. unfold read. rewrite Hmode.
+  set (blk := eff_block (mode_ofh h) block).
+  assert (Hframed : blk = false -> framed (sfs s) (g_cr g)).
+  { intro Hb. apply Hfrm. intro Hmb. unfold blk, eff_block in Hb. rewrite Hmb in Hb. discriminate. }
+  pose proof (read_raw_pos (sfs s) (g_cr g) (grow s) blk r taken cur t Hfs Hcr (grow_last_of h s g HG Hm) Hframed Hr Hat Hpos
+                           ltac:(rewrite Hfx; exact Hfr)) as (_ & _ & _ & taken' & cur' & t' & Hat' & Hpos' & Hd).
+  destruct (rf r) as [| |ri ro] eqn:Erf; [|congruence|];
+  (destruct (read_raw r (sfs s) blk) as [r' [data|]] eqn:Err; cbn [fst snd] in *;
+   [ destruct Hd as (i & c & Hin & Hc0 & Hct & Hne & Hdata & _);
+     exists (read_chunks (sfs s) r' data); cbn [g_got]; rewrite set_slot_same; split; [reflexivity|];
+     subst data; rewrite (read_chunks_spec (sfs s) (g_cr g) r' cur' t' i c Hfs Hcr Hat' Hin Hc0 Hct);
+     rewrite map_snd_tag;
+     destruct (firstn c (skipn (t' - c) (chunks (sfs s) i))) as [|x l] eqn:El;
+     [exfalso; apply Hne; reflexivity|reflexivity]
+   | exists []; rewrite app_nil_r; split; reflexivity ]).
+Qed.
+
+(* ---- C14: what a restart from the head file resumes with -------------------------------------- *)
+Lemma restart_ghost h s g o now ar i r' :
+  lookup (dir (sfs s)) head_name = Some i ->
+  fst (fst (restart (mk_cfg h true ar true) (sfs s) now)) = Some r' ->
+  let g' := gstep h s g (OOpen o now true ar true) in
+  g_got g' o = filter (fun e => fst e <=? head_name_of (sfs s)) (fst (g_saved g)) /\
+  g_sync g' o = snd (g_saved g) /\ g_saved g' = g_saved g.
+Proof.
+  intros Hl Hr. cbn [gstep]. rewrite Hr, Hl. cbn [andb g_got g_sync g_saved]. rewrite !set_slot_same. auto.
+Qed.
+
+Lemma save_ghost h s g o p : saves s (OSave o) = Some p ->
+  g_saved (gstep h s g (OSave o)) = (g_got g o, g_sync g o).
+Proof. intro H. cbn [gstep g_saved]. unfold head_writer. rewrite H. reflexivity. Qed.
+
+Lemma crash_ghost h s g o k part p : saves s (OCrashSave o k part) = Some p ->
+  g_saved (gstep h s g (OCrashSave o k part)) = (if 4 <=? k then (g_got g o, g_sync g o) else g_saved g).
+Proof.
+  intro H. cbn [gstep]. unfold head_writer. rewrite H.
+  assert (Hd : snd (step h s (OCrashSave o k part)) = RDied).
+  { cbn [step]. cbn [saves] in H. destruct (get s o) as [r|]; [|discriminate]. unfold crash_save.
+    destruct (c_head (cf r)); [|discriminate]. destruct (tell r); try discriminate. reflexivity. }
+  rewrite Hd. cbn [g_saved]. destruct (4 <=? k); reflexivity.
 Qed.
